@@ -371,15 +371,18 @@ func (x *Exec) applyContract(st *State, c *Contract, fn *ssa.Function, sig *type
 	if len(c.Relies) > 0 {
 		e.snaps = map[string]map[string]Term{}
 		for _, rs := range c.Relies {
-			if rs.Snap == "" {
-				continue
+			for _, label := range []string{rs.Snap, rs.PreSnap} {
+				if label == "" {
+					continue
+				}
+				h := map[string]Term{}
+				for name, t := range st.heap {
+					h[name] = x.freshNamed(name+"!"+label, t.Sort)
+				}
+				e.snaps[label] = h
 			}
-			h := map[string]Term{}
-			for name, t := range st.heap {
-				h[name] = x.freshNamed(name+"!"+rs.Snap, t.Sort)
-			}
-			e.snaps[rs.Snap] = h
 		}
+		x.lastCalleeSnaps = e.snaps
 	}
 	for _, cl := range c.ByKind("ensures") {
 		if x.localClause(c, cl) {
@@ -905,6 +908,12 @@ func (x *Exec) applyRely(st *State, rs *RelySpec) {
 	pre := st.snapshot()
 	e.old = pre
 	e.oldWM = st.wmNow()
+	if rs.PreSnap != "" {
+		if fr.snaps == nil {
+			fr.snaps = map[string]map[string]Term{}
+		}
+		fr.snaps[rs.PreSnap] = pre
+	}
 	st.bumpWM()
 	for _, l := range x.locsOf(e, rs.Modifies) {
 		x.havocLoc(st, l)
